@@ -64,9 +64,10 @@ pub(crate) struct LruStore<K, V> {
 impl<K: Hash + Eq, V> LruStore<K, V> {
     pub(crate) fn new(capacity: usize) -> Self {
         let cap = NonZeroUsize::new(capacity).unwrap_or(NonZeroUsize::new(100).unwrap());
-        Self {
-            cache: lru::LruCache::new(cap),
-        }
+        // Do not allocate `capacity` slots up front: max_size is a bound, not a size hint
+        let mut cache = lru::LruCache::unbounded();
+        cache.resize(cap);
+        Self { cache }
     }
 }
 
@@ -102,8 +103,9 @@ pub(crate) struct LfuStore<K, V> {
 impl<K: Hash + Eq + Clone, V> LfuStore<K, V> {
     pub(crate) fn new(capacity: usize) -> Self {
         Self {
-            data: HashMap::with_capacity(capacity),
-            frequencies: HashMap::with_capacity(capacity),
+            // max_size is a bound, not a size hint: no allocation up front
+            data: HashMap::new(),
+            frequencies: HashMap::new(),
             capacity: capacity.max(1),
         }
     }
@@ -177,8 +179,9 @@ pub(crate) struct FifoStore<K, V> {
 impl<K: Hash + Eq + Clone, V> FifoStore<K, V> {
     pub(crate) fn new(capacity: usize) -> Self {
         Self {
-            data: HashMap::with_capacity(capacity),
-            order: VecDeque::with_capacity(capacity),
+            // max_size is a bound, not a size hint: no allocation up front
+            data: HashMap::new(),
+            order: VecDeque::new(),
             capacity: capacity.max(1),
         }
     }
